@@ -60,6 +60,26 @@ func pairNotes(song *smfread.Song) (spans []noteSpan, problem string) {
 // half either neighbour is admissible, so starts are kept as small sets and
 // narrowed by what is observed. Returns the admissible totals.
 func timeline(d Doc, ms []InstModel, spans []noteSpan) (starts []int64, totals map[int64]bool, v *Violation) {
+	// a chord shorter than half a tick occupies round(T x v) = 0 ticks: its notes, if written at all, are struck
+	// and released at one tick, and the next instance starts at that same tick. Such chords are walked like
+	// zero-length rests; a zero-length span is legitimate only where the model has such a chord.
+	zeroAllowed := false
+	for _, m := range ms {
+		if m.Notes != nil && m.LenHi == 0 {
+			zeroAllowed = true
+		}
+	}
+	var audible []noteSpan
+	for _, s := range spans {
+		if s.On == s.Off {
+			if !zeroAllowed {
+				return nil, nil, vio("length", "pitch %d is struck and released at the same tick %d, but every chord of the document lasts at least one tick", s.Pitch, s.On)
+			}
+			continue
+		}
+		audible = append(audible, s)
+	}
+	spans = audible
 	onTicks := map[int64]bool{}
 	for _, s := range spans {
 		onTicks[s.On] = true
@@ -71,7 +91,7 @@ func timeline(d Doc, ms []InstModel, spans []noteSpan) (starts []int64, totals m
 	sort.Slice(distinct, func(i, j int) bool { return distinct[i] < distinct[j] })
 	nChords := 0
 	for _, m := range ms {
-		if m.Notes != nil {
+		if m.Notes != nil && m.LenHi > 0 {
 			nChords++
 		}
 	}
@@ -90,7 +110,7 @@ func timeline(d Doc, ms []InstModel, spans []noteSpan) (starts []int64, totals m
 		if m.LenHi != m.LenLo {
 			lens = append(lens, m.LenHi)
 		}
-		if m.Notes == nil {
+		if m.Notes == nil || m.LenHi == 0 {
 			next := map[int64]bool{}
 			for s := range cur {
 				for _, l := range lens {
@@ -158,10 +178,21 @@ func compareTiming(d Doc, song *smfread.Song) *Violation {
 		return vio(sig, "%s%s", prob, ctx)
 	}
 	ms := d.Model(song.Division)
-	_, _, v := timeline(d, ms, spans)
+	_, totals, v := timeline(d, ms, spans)
 	if v != nil {
 		v.Msg += ctx
 		return v
+	}
+	// the piece ends where its last instance ends: trailing rests occupy their ticks too, and the only thing
+	// that shows it is the position of the last event of the file (the latest end-of-track)
+	var end int64
+	for _, tr := range song.Tracks {
+		if n := len(tr); n > 0 && tr[n-1].Tick > end {
+			end = tr[n-1].Tick
+		}
+	}
+	if !totals[end] {
+		return vio("piece-end", "the file ends at tick %d, the instances add up to %v ticks%s", end, keys64(totals), ctx)
 	}
 	return nil
 }
@@ -264,6 +295,18 @@ func TestC02(t *testing.T) {
 			}
 		}
 		ensureAudible(&d)
+		// chords shorter than half a tick: round(T x v) = 0 ticks, the piece must not get longer by them
+		if coin(t, "sub-tick-chord", 8) {
+			n := rapid.IntRange(1, 3).Draw(t, "nsub")
+			for i := 0; i < n; i++ {
+				j := rapid.IntRange(0, len(d.Insts)-1).Draw(t, "sub-at")
+				if d.Insts[j].Chord == nil {
+					continue
+				}
+				d.Insts[j].Values = rapid.SampledFrom([][]Frac{{{1, 1921}}, {{1, 2048}}, {{3, 7000}}, {{1, 5000}, {1, 5000}}, {{1, 1000000}}, {{1, 9973}}}).Draw(t, "sub-values")
+				r.Class("chord-shorter-than-half-a-tick", 1)
+			}
+		}
 		c := C02Case{d}
 		c02Stats(r, d)
 		r.Sample(map[string]any{"args": d.Flags.Argv(), "yaml": d.YAML()})
